@@ -2,6 +2,24 @@
 import json
 
 
+# Functions the crate declares in its own `extern` blocks are identified by their symbol, wherever the declaration lives: the rules
+# name them by the module path they have on the pinned tree, and a declaration moved to another module is given that name.
+EXTERN_HOME = {}
+for _b in ("VirtualProtect", "VirtualAlloc", "VirtualFree", "FlushInstructionCache", "GetCurrentProcess", "GetSystemInfo"):
+    EXTERN_HOME[_b] = "injector_core::winapi::" + _b
+EXTERN_HOME["__clear_cache"] = "injector_core::linuxapi::__clear_cache"
+for _b in ("sys_dcache_flush", "sys_icache_invalidate"):
+    EXTERN_HOME[_b] = "injector_core::macosapi::" + _b
+
+
+def canon_foreign(path, foreign):
+    if foreign and isinstance(path, str):
+        base = path.rsplit("::", 1)[-1]
+        if base in EXTERN_HOME and not path.startswith(("libc::", "mach2::", "std::", "core::")):
+            return EXTERN_HOME[base]
+    return path
+
+
 RAW_WRITE_FNS = {
     "std::ptr::copy_nonoverlapping", "std::intrinsics::copy_nonoverlapping", "std::ptr::copy", "std::intrinsics::copy",
     "std::ptr::write", "std::ptr::write_volatile", "std::ptr::write_unaligned", "std::ptr::write_bytes",
@@ -54,7 +72,7 @@ class Facts:
             if t["k"] == "call" and t["callee"]["k"] == "def":
                 c = t["callee"]
                 r = c.get("resolved")
-                out.append(((r["path"] if r else c["path"]), c["foreign"], (r["local"] if r else c["local"]), t))
+                out.append((canon_foreign((r["path"] if r else c["path"]), c["foreign"]), c["foreign"], (r["local"] if r else c["local"]), t))
             elif t["k"] == "call":
                 out.append(("<indirect>", False, False, t))
             elif t["k"] == "asm":
